@@ -174,8 +174,12 @@ func ForwardUses(v ssa.Value) map[ssa.Instruction]bool {
 				fn := st.Parent()
 				for _, b := range fn.Blocks {
 					for _, ins := range b.Instrs {
-						if u, ok := ins.(*ssa.UnOp); ok && u.Op == token.MUL && SameLoc(u.X, st.Addr) {
-							visit(u)
+						if u, ok := ins.(*ssa.UnOp); ok && u.Op == token.MUL {
+							if SameLoc(u.X, st.Addr) {
+								visit(u)
+							} else if a, isAlloc := AddrRoot(st.Addr).(*ssa.Alloc); isAlloc && AddrRoot(u.X) == ssa.Value(a) {
+								visit(u) // a part of the local object the value was stored into
+							}
 						}
 					}
 				}
